@@ -49,3 +49,9 @@ Lemma wraps_safe_not_forwarded : forall p t,
   nest p (mk_err EWrapsSafe t) = mk_perr (mk_err EWrapsSafe t) p /\
   sanitize (nest p (mk_err EWrapsSafe t)) = "Internal server error".
 Proof. intros p t. split; reflexivity. Qed.
+
+(** A user-defined SanitizedError is handed on without a path, and the client sees its SanitizedError()
+    text ([e_text]), whatever its Error() text says. *)
+Lemma custom_sanitized_forwarded : forall p t,
+  nest p (mk_err ECustom t) = mk_perr (mk_err ECustom t) [] /\ sanitize (nest p (mk_err ECustom t)) = t.
+Proof. intros p t. split; reflexivity. Qed.
